@@ -45,6 +45,22 @@ static void body(mvprog::PT& p) {
             h = nullptr; G->log += char('a' + me); G->log += 'u'; p.result += "u";
             continue;
         }
+        if (op == 'M') {      // one thread holds three adjacent ranges [0,2) [2,4) [4,6); a ranged unlock(1,5) starts inside the first and covers
+                              // the other two: those must be released (and their waiters woken), the partially covered one stays held
+            G->waiting[me] = true;
+            for (uint64_t o0 = 0; o0 < 6; o0 += 2) for (int guard = 0;; guard++) { uint64_t o = o0, l = 2; if (G->rl.try_lock_wait(o, l) == 0) break; if (guard > 50) pmc_violation("try_lock_wait-spins", "more than 50 failed try_lock_wait rounds"); }
+            G->waiting[me] = false;
+            occupy(me, 0, 6, "try_lock_wait x3");
+            mv_yield("holding");
+            G->held[me] = {0, 2, true};
+            G->rl.unlock(1, 5);
+            if (G->rl.m_index.size() > 1 + 1) { /* other threads may have inserted their own range meanwhile */ }
+            mv_yield("holding");
+            G->held[me].on = false;
+            G->rl.unlock(0, 2);
+            G->log += char('a' + me); G->log += 'M'; p.result += "M";
+            continue;
+        }
         int r = p.ops[++i] - '0';
         if (p.ops[i] == '?') { static const int NR = sizeof RANGES / sizeof RANGES[0]; r = pmc_choose(NR, PMC_PROG, 0, "range"); G->log += char('0' + r); }
         uint64_t off = RANGES[r].off, len = RANGES[r].len;
@@ -102,6 +118,8 @@ static const PmcConfig CFG[] = {
     {"L3U|L0U|L2U",        3, {1,2}, {0,0}, {0,0}, {0,0}, "one big range blocks two; its unlock must wake both"},
     {"T0U|T1U",            3, {1,2}, {0,0}, {0,0}, {0,0}, "try_lock_wait + unlock(offset,len)"},
     {"T3U|L4U",            3, {1,2}, {0,0}, {0,0}, {0,0}, ""},
+    {"M|L2U",              3, {1,2}, {0,0}, {0,0}, {0,0}, "ranged unlock(offset,len) covering two held ranges and starting inside a third: the covered ones are released, their waiter proceeds"},
+    {"M,pL2U,pL9U",        3, {0,0}, {0,0}, {0,0}, {0,0}, "the same on one vCPU, every arrival order"},
     {"L0A3U|L2U",          3, {1,2}, {0,0}, {0,0}, {0,0}, "grow into a neighbour"},
     {"L3A0U|L2U",          3, {1,2}, {0,0}, {0,0}, {0,0}, "shrink then the neighbour fits"},
     {"L4A1U|L0U,L9U",      2, {1,2}, {0,0}, {0,0}, {0,0}, "move"},
